@@ -73,6 +73,9 @@ def _alarm(signum, frame):
     raise Timeout()
 
 
+SPECENV = {}
+
+
 def load_specs():
     """All spec files are executed into ONE shared namespace (so they can refer to each other)."""
     env = {"__name__": "pyvc_specs"}
@@ -146,7 +149,9 @@ def from_json(j, tmpfiles=None):
     if "opaque" in j:
         return None
     if "py" in j:
-        return eval(j["py"], {"io": io})
+        env = dict(SPECENV)
+        env["io"] = io
+        return eval(j["py"], env)
     raise ValueError(f"cannot convert {j!r}")
 
 
@@ -432,6 +437,7 @@ def main():
         cdb = ContractDB(os.path.join(ROOT, "contracts"))
         contract = [c for c in cdb.all if c.key == job["contract_key"] and c.mode == job.get("mode", c.mode)][0]
         specenv = load_specs()
+        SPECENV.update(specenv)
         cc = ConcreteContract(contract, specenv)
         _mod, fn = resolve_target(contract.target, repo_root)
         mode = contract.mode
